@@ -343,3 +343,55 @@ func vh_C12_writer_threads() {
 	vCover(flush && len(s.sent) >= 3, "delivered-3-or-more-with-flush")
 	vCover(!flush && len(s.sent) > 0 && len(s.sent) < len(r.enq), "no-flush-close-dropped-a-suffix")
 }
+
+// C12 (no loss without close): in every writer mode, a message enqueued while
+// a flush is in progress, and messages enqueued after that, are all written
+// to the transport in order without any close — the timer-driven mode must
+// re-arm its flush timer whatever the interleaving of producer and flusher.
+func vh_C12_writer_liveness() {
+	mode := vChoice("mode", 3)
+	maxFrame := vConcInt(vRange("maxframe", -1, 2))
+	const delay = 5 * time.Millisecond
+	s := &c12sink{}
+	r := &c12ref{}
+	w := c12newWriter(s, 0, 1)
+	switch mode {
+	case 0:
+		go w.run(0, maxFrame, -1, false)
+	case 1:
+		go w.run(delay, maxFrame, -1, false)
+	case 2:
+		w.run(delay, maxFrame, -1, true)
+	}
+	put := func() {
+		it := r.item()
+		if w.enqueue(it) == nil {
+			r.enq = append(r.enq, it)
+		}
+	}
+	put() // m0: arms the flush timer in timer mode / wakes the run loop
+	// let the flush start (timer fired, its goroutine not yet run) and race it
+	// with the next enqueue under the preemption budget
+	vFireTimerRaw()
+	go put() // m1
+	vPreempt(vParam("c12_preempt", 1))
+	vSettle()
+	vPreempt(0)
+	drain := func() {
+		for k := 0; k < 6; k++ {
+			vSettle()
+			if vPendingTimers() == 0 {
+				break
+			}
+			vFireTimer()
+		}
+		vSettle()
+	}
+	drain()
+	put() // m2: after whatever the race left behind
+	drain()
+	vAssert(len(r.enq) == 3, "all-accepted")
+	vAssert(len(s.sent) == 3, "every-enqueued-message-is-written-without-close")
+	c12prefixOK(s, r)
+	vCover(mode == 2, "timer-mode")
+}
